@@ -757,6 +757,8 @@ func runC09() {
 			if err != nil {
 				ok = false
 				rep.hist("concurrent-compile source rejected: " + firstWords(err.Error()))
+				rep.fail(Failure{Key: "C09-campaign-source-rejected", What: "a fixed, well-formed source of the concurrent-compile campaign is rejected by expr.Compile (the campaign cannot run)",
+					Input: clip(src), Want: "a program", Got: firstLineOf(err.Error())})
 				break
 			}
 			want = append(want, digest(p))
